@@ -80,33 +80,33 @@ def dImages (s : String) : Option (List Image) :=
 def dBool (s : String) : Option Bool :=
   if s == "1" then some true else if s == "0" then some false else none
 
-def showEntry : SubEntry → String
+def dspEntry : SubEntry → String
   | .ell => "E"
   | .item .none => "N"
   | .item (.int i) => s!"i{i}"
   | .item (.slice s) => "s" ++ s!"{po s.start}/{po s.stop}/{po s.step}"
 
-def showSub : Option (List SubEntry) → String
+def dspSub : Option (List SubEntry) → String
   | none => "N"
   | some [] => "-"
-  | some l => ",".intercalate (l.map showEntry)
+  | some l => ",".intercalate (l.map dspEntry)
 
-def showB (b : Bool) : String := if b then "1" else "0"
-def showN (t : NSlice) : String := ps t.toPy
-def showShape (l : List Nat) : String := "(" ++ ",".intercalate (l.map toString) ++ ")"
-def showSel (s : Sel) : String := s!"ok {s.image} {showB s.raw} {showB s.squeeze} {showSub s.sub}"
+def dspB (b : Bool) : String := if b then "1" else "0"
+def dspN (t : NSlice) : String := ps t.toPy
+def dspShape (l : List Nat) : String := "(" ++ ",".intercalate (l.map toString) ++ ")"
+def dspSel (s : Sel) : String := s!"ok {s.image} {dspB s.raw} {dspB s.squeeze} {dspSub s.sub}"
 
 /-- dispatch, then what the chosen segment makes of the subscript -/
-def serve (r : List Image) (d : Except Err Sel) : String :=
+def dspServe (r : List Image) (d : Except Err Sel) : String :=
   match d with
   | .error e => "err " ++ dErr e
   | .ok sel =>
     match r[sel.image]? with
-    | none => showSel sel ++ " | no-such-image"
+    | none => dspSel sel ++ " | no-such-image"
     | some im =>
       match resolveSub (im.shapeFor sel.raw) sel.sub with
-      | none => showSel sel ++ " | refused"
-      | some ts => showSel sel ++ " | " ++ ";".intercalate (ts.map showN) ++ " | " ++ showShape (resultShape sel.squeeze ts)
+      | none => dspSel sel ++ " | refused"
+      | some ts => dspSel sel ++ " | " ++ ";".intercalate (ts.map dspN) ++ " | " ++ dspShape (resultShape sel.squeeze ts)
 
 def dStart (s : String) : Option StartArg :=
   if s == "N" then some .none
@@ -121,14 +121,14 @@ def dSubArg (s : String) : Option (Option (List SubEntry)) :=
   else if s == "-" then some (some [])
   else ((s.splitOn ",").mapM dEntry).map some
 
-def showStart : StartArg → String
+def dspStart : StartArg → String
   | .none => "N"
   | .int i => s!"i{i}"
   | .tup l => "t(" ++ ";".intercalate (l.map toString) ++ ")"
 
-def showPut : Except Err PutSel → String
+def dspPut : Except Err PutSel → String
   | .error e => "err " ++ dErr e
-  | .ok p => s!"ok {p.segment} {showB p.raw} {showStart p.start} {showSub p.sub}"
+  | .ok p => s!"ok {p.segment} {dspB p.raw} {dspStart p.start} {dspSub p.sub}"
 
 def dFlags (s : String) : Option (List Bool) :=
   if s == "-" then some [] else s.toList.mapM (fun c => if c == '1' then some true else if c == '0' then some false else none)
@@ -137,37 +137,37 @@ def dispStep (toks : List String) : Option String :=
   match toks with
   | "get" :: ims :: "S" :: [v] => do
     let r ← dImages ims; let v ← dVal v
-    pure (serve r (dispatchGet r.length (.getitem v)))
+    pure (dspServe r (dispatchGet r.length (.getitem v)))
   | "get" :: ims :: "T" :: vs => do
     let r ← dImages ims; let vs ← vs.mapM dVal
-    pure (serve r (dispatchGet r.length (.getitem (.tuple vs))))
+    pure (dspServe r (dispatchGet r.length (.getitem (.tuple vs))))
   | "call" :: ims :: index :: raw :: sq :: vs => do
     let r ← dImages ims; let index ← index.toInt?; let raw ← dBool raw; let sq ← dBool sq; let vs ← vs.mapM dVal
-    pure (serve r (dispatchGet r.length (.call vs index raw sq)))
+    pure (dspServe r (dispatchGet r.length (.call vs index raw sq)))
   | "read" :: ims :: index :: sq :: vs => do
     let r ← dImages ims; let index ← index.toInt?; let sq ← dBool sq; let vs ← vs.mapM dVal
-    pure (serve r (dispatchGet r.length (.read vs index sq)))
+    pure (dspServe r (dispatchGet r.length (.read vs index sq)))
   | "readraw" :: ims :: index :: sq :: vs => do
     let r ← dImages ims; let index ← index.toInt?; let sq ← dBool sq; let vs ← vs.mapM dVal
-    pure (serve r (dispatchGet r.length (.readRaw vs index sq)))
+    pure (dspServe r (dispatchGet r.length (.readRaw vs index sq)))
   | "readchip" :: ims :: index :: sq :: vs => do
     let r ← dImages ims; let index ← index.toInt?; let sq ← dBool sq; let vs ← vs.mapM dVal
-    pure (serve r (dispatchGet r.length (.readChip vs index sq)))
+    pure (dspServe r (dispatchGet r.length (.readChip vs index sq)))
   | "fetch" :: ims :: index :: es => do
     let r ← dImages ims; let index ← index.toNat?; let es ← es.mapM dEntry
-    pure (serve r (fetcherGetitem r index es))
+    pure (dspServe r (fetcherGetitem r index es))
   | ["fullres", ims, index, a, b] => do
     let r ← dImages ims; let index ← index.toNat?
     let a ← dSlice ((a.drop 1).toString); let b ← dSlice ((b.drop 1).toString)
-    pure (serve r (fetcherFullRes r.length index a b))
+    pure (dspServe r (fetcherFullRes r.length index a b))
   | ["sizes", ims] => do
     let r ← dImages ims
     let sz := fun (s : Sizes) => match s with
-      | .one s => showShape s
-      | .many l => "(" ++ ",".intercalate (l.map showShape) ++ ")"
+      | .one s => dspShape s
+      | .many l => "(" ++ ",".intercalate (l.map dspShape) ++ ")"
     pure (s!"{imageCount r} {sz (dataSize r)} {sz (rawDataSize r)} " ++
-      "(" ++ ",".intercalate ((getDataSizeAsTuple r).map showShape) ++ ") " ++
-      "(" ++ ",".intercalate ((getRawDataSizeAsTuple r).map showShape) ++ ")")
+      "(" ++ ",".intercalate ((getDataSizeAsTuple r).map dspShape) ++ ") " ++
+      "(" ++ ",".intercalate ((getRawDataSizeAsTuple r).map dspShape) ++ ")")
   | ["aggmap", counts] => do
     let c ← dShape counts
     pure (",".intercalate ((aggMap c).map (fun p => s!"{p.1}:{p.2}")))
@@ -176,13 +176,13 @@ def dispStep (toks : List String) : Option String :=
     pure (match subsetParent c i with | .ok k => s!"ok {k}" | .error e => "err " ++ dErr e)
   | ["put", flags, "call", index, raw, start, sub] => do
     let f ← dFlags flags; let index ← index.toInt?; let raw ← dBool raw; let st ← dStart start; let sb ← dSubArg sub
-    pure (showPut (dispatchPut f (.call ⟨st, sb, index⟩ raw)))
+    pure (dspPut (dispatchPut f (.call ⟨st, sb, index⟩ raw)))
   | ["put", flags, kind, index, start, sub] => do
     let f ← dFlags flags; let index ← index.toInt?; let st ← dStart start; let sb ← dSubArg sub
     let a : PutArgs := ⟨st, sb, index⟩
     let req ← (if kind == "write" then some (PutRequest.write a) else if kind == "writeraw" then some (.writeRaw a)
       else if kind == "writechip" then some (.writeChip a) else none)
-    pure (showPut (dispatchPut f req))
+    pure (dspPut (dispatchPut f req))
   | _ => none
 
 end Sarpy.Drivers
